@@ -228,6 +228,28 @@ def t_r3(p: Project, rep: Report):
                 if imp is False:
                     ok, why = False, f"a path returns {rtxt[:60]} although its conditions do not establish membership in self.valid"
             rep.check("T-R3", f"OneOf.{famname}[{key}]:membership", ok, f"{h.qualname}: {why}" if not ok else "", tloc(p, h.fn))
+    # the token set is what the declaration lists: OneOf("A", "B").valid is the tuple of positional arguments that
+    # Element.__init__ binds through the signature; any later re-binding must keep every member a member
+    for c_ in ci.repo_mro:
+        for fn_ in [x for x in c_.node.body if isinstance(x, ast.FunctionDef)]:
+            for st_ in ast.walk(fn_):
+                tg_ = None
+                if isinstance(st_, ast.Assign):
+                    tg_ = next((t for t in st_.targets if text(t) == "self.valid"), None)
+                    val_ = st_.value
+                elif isinstance(st_, ast.Call) and text(st_.func) == "setattr" and len(st_.args) == 3 and text(st_.args[0]) == "self" and isinstance(st_.args[1], ast.Constant) and st_.args[1].value == "valid":
+                    tg_, val_ = st_, st_.args[2]
+                if tg_ is None:
+                    continue
+                n += 1
+                keeps = text(val_) in ("self.valid", "valid") or (isinstance(val_, ast.Call) and text(val_.func) in ("tuple", "list", "set", "frozenset", "sorted") and len(val_.args) == 1 and text(val_.args[0]) in ("self.valid", "valid"))
+                picks = isinstance(val_, ast.Subscript) and text(val_.value) in ("self.valid", "valid", "args")
+                if keeps:
+                    rep.check("T-R3", f"{c_.name}.{fn_.name}:valid-rebound-whole", True, "", tloc(p, st_))
+                elif picks:
+                    rep.check("T-R3", f"{c_.name}.{fn_.name}:valid-rebound-whole", False, f"self.valid is re-bound to {text(val_)}, one of the declared tokens: membership is then tested against the CHARACTERS of that token (`value in 'NONE'` holds for 'N', 'ON', ''), so texts that are not the token are accepted by every single-token enumeration", tloc(p, st_))
+                else:
+                    rep.note(f"T-R3 undecided: {c_.name}.{fn_.name} re-binds self.valid to {text(val_)[:50]}")
     le = types["ListElement"]
     for famname in ("convert", "unconvert"):
         fam = D.family(le, famname)
